@@ -18,6 +18,9 @@ type Proto struct {
 	// IOFixed: the device answers IOX on every port (used to sweep all 256 answers)
 	IOFixed bool
 	Data    int // data pattern poked at the pointer targets (0 = background)
+	// Env: environment of the Step. 0 normal; 1 a maskable request is pending and refused (IFF1 forced
+	// clear); 2 no IO device attached (CPU.IO == nil); 3 no RETN/RETI handlers registered
+	Env int
 }
 
 // Mod modifies a Proto. Mods of pairs apply the PC dimension first so that
@@ -88,6 +91,12 @@ func latticeDims() []*dim {
 		{name: "HALT", vals: abs(1), set: func(p *Proto, v uint16) { p.S.Halt = v != 0 }},
 		{name: "IOX", vals: abs(0x00, 0xFF, 0x80, 0x5A), set: func(p *Proto, v uint16) { p.IOX = uint8(v) }},
 		{name: "DATA", vals: abs(1, 2, 3, 4), set: func(p *Proto, v uint16) { p.Data = int(v) }},
+		{name: "ENV", vals: abs(1, 2, 3), set: func(p *Proto, v uint16) {
+			p.Env = int(v)
+			if v == 1 {
+				p.S.IFF1 = false
+			}
+		}},
 	}
 	return ds
 }
@@ -235,6 +244,7 @@ var dataPatterns = [][]uint8{nil, {0x00, 0x00}, {0xFF, 0xFF}, {0x80, 0x7F}, {0x0
 func materialise(p *Proto, e *Enc, cs *Case) {
 	cs.S = p.S
 	cs.IOX, cs.IOY, cs.IOFixed = p.IOX, p.IOY, p.IOFixed
+	cs.Env = p.Env
 	cs.Bytes = append(cs.Bytes[:0], e.Fixed...)
 	if e.DPos >= 0 {
 		cs.Bytes[e.DPos] = p.D
@@ -266,10 +276,11 @@ type protoKey struct {
 	iox  uint8
 	iof  bool
 	data int
+	env  int
 }
 
 func keyOf(p *Proto, e *Enc) protoKey {
-	k := protoKey{s: p.S, iox: p.IOX, iof: p.IOFixed, data: p.Data}
+	k := protoKey{s: p.S, iox: p.IOX, iof: p.IOFixed, data: p.Data, env: p.Env}
 	k.s.F = 0
 	if e.DPos >= 0 {
 		k.d = p.D
